@@ -39,6 +39,8 @@ type Engine struct {
 	LogSMT      string            // directory for per-worker SMT transcripts ("" = off)
 	Params      map[string]int    // concrete instance parameters read by vparam()
 	Fresh       bool
+	NoAlt       bool
+	QuickMs     int
 	// StopOn, if set, is consulted for every violation; returning true ends the exploration early.
 	StopOn   func(Violation) bool
 	Deadline time.Time // zero = none; exploration stops (inconclusive) when passed
@@ -96,6 +98,7 @@ func Load(dir string, patterns []string, overlay map[string][]byte, tags string)
 		TimeoutMs:   30000,
 		Redirects:   map[string]string{},
 		Params:      map[string]int{},
+		QuickMs:     300,
 		info:        make(map[*ssa.Function]*fnInfoT),
 	}
 	for _, p := range prog.AllPackages() {
@@ -278,9 +281,19 @@ func (e *Engine) Run(h *ssa.Function, workers int) *Summary {
 		go func(w int) {
 			defer wg.Done()
 			sol, err := NewSolver(e.SolverBin, e.TimeoutMs)
+			if err == nil && !e.Fresh && !e.NoAlt {
+				alt, aerr := NewSolver(e.SolverBin, e.TimeoutMs)
+				if aerr == nil {
+					alt.Fresh = true
+					sol.Alt = alt
+					sol.QuickMs = e.QuickMs
+					sol.Reset()
+				}
+			}
 			if err == nil {
 				sol.Fresh = e.Fresh
 				sol.SetLogic = e.SetLogic
+				sol.DumpUnknown = e.LogSMT
 			}
 			if err != nil {
 				mu.Lock()
